@@ -136,7 +136,7 @@ func (p *Plugin) getMessagesOutcome(
 	for i, report := range commitReports {
 		report.Messages = nil
 		report.CostlyMessages = nil
-		for j := report.SequenceNumberRange.Start(); j <= report.SequenceNumberRange.End(); j++ {
+		for _, j := range observedSeqNumsInRange(observation, report.SourceChain, report.SequenceNumberRange) {
 			if msg, ok := observation.Messages[report.SourceChain][j]; ok {
 				report.Messages = append(report.Messages, msg)
 				if costlyMessagesSet.Contains(msg.Header.MessageID) {
@@ -156,6 +156,30 @@ func (p *Plugin) getMessagesOutcome(
 	// Must use 'NewOutcome' rather than direct struct initialization to ensure the outcome is sorted.
 	// TODO: sort in the encoder.
 	return exectypes.NewOutcome(exectypes.GetMessages, commitReports, cciptypes.ExecutePluginReport{})
+}
+
+// observedSeqNumsInRange returns, in ascending order, the sequence numbers of the range for which a message or
+// token data was observed. Walking the observed keys rather than the range itself bounds the work by the size of
+// the observation: a range ending at MaxUint64 would never terminate a "for j := start; j <= end; j++" loop.
+func observedSeqNumsInRange(
+	observation exectypes.Observation,
+	chain cciptypes.ChainSelector,
+	seqNumRange cciptypes.SeqNumRange,
+) []cciptypes.SeqNum {
+	seen := mapset.NewSet[cciptypes.SeqNum]()
+	for seqNum := range observation.Messages[chain] {
+		if seqNumRange.Contains(seqNum) {
+			seen.Add(seqNum)
+		}
+	}
+	for seqNum := range observation.TokenData[chain] {
+		if seqNumRange.Contains(seqNum) {
+			seen.Add(seqNum)
+		}
+	}
+	seqNums := seen.ToSlice()
+	sort.Slice(seqNums, func(i, j int) bool { return seqNums[i] < seqNums[j] })
+	return seqNums
 }
 
 func (p *Plugin) getFilterOutcome(
